@@ -40,7 +40,9 @@ def exact_ydx(cps):
 
 def correspond(ctx):
     rng = ctx.rng
-    names = ['Line_area', 'Quad_area', 'Cubic_area', 'Quad_toCubicBezier', 'Line_reversed', 'Quad_reversed', 'Cubic_reversed']
+    names = ['Line_area', 'Quad_area', 'Cubic_area', 'Quad_toCubicBezier', 'Line_reversed', 'Quad_reversed', 'Cubic_reversed',
+             'geometricshapes_CIRCULAR_SUPERNESS', 'geometricshapes_Rectangle', 'geometricshapes_Square', 'geometricshapes_Ellipse', 'geometricshapes_Circle',
+             'geometricshapes_Ellipse@default', 'geometricshapes_Circle@default']     # regenerated twins of Hand/Shoelace.v, Hand/Shapes.v (Proofs/Bridge.v)
     res = kernels.cross_check('C10', names, ctx.n(30, 500), rng)
     # hand model: shoelace over an edge list, and Rectangle
     cases, meta = [], []
@@ -250,7 +252,9 @@ def search(ctx):
         if f: fails.append({'class': 'C10-path', 'what': f[0], 'input': {'path': path_json(far), 'simple_ccw': True, 'seed2': 1}, 'observed': f, 'expected': 'C10 closed-path clauses'})
     for _ in range(ctx.n(30, 250)):
         kind = rng.choice(['rect', 'ellipse', 'circle'])
-        a = rng.choice([float(rng.randint(1, 5000)), rng.uniform(1, 5000)]); b = rng.choice([float(rng.randint(1, 5000)), rng.uniform(1, 5000)])
+        # flatten() costs O(length^2): the quick tier draws most sizes below 600 and one in eight up to 5000 (thorough: all sizes uniformly)
+        top = 5000 if (ctx.tier == 'thorough' or rng.random() < 0.125 or kind == 'rect') else 600
+        a = rng.choice([float(rng.randint(1, top)), rng.uniform(1, top)]); b = rng.choice([float(rng.randint(1, top)), rng.uniform(1, top)])
         o = rng.choice([None, P(rng.uniform(-5000, 5000), rng.uniform(-5000, 5000))])
         ev += 1; dist['shape/' + kind] = dist.get('shape/' + kind, 0) + 1
         f = check_shape(kind, a, b, o)
